@@ -79,6 +79,7 @@ FAMILIES = {
     "camel": {"module": "CamelCase", "judge": "CamelCaseTrace"},
     "typeref": {"module": "TypeRef", "judge": "TypeRefTrace"},
     "template": {"module": "Template", "judge": "TemplateTrace"},
+    "tracker": {"module": "MC_ImportTracker", "judge": "ImportTrackerTrace"},
     "comments": {"module": "Comments", "judge": "CommentsTrace"},
     "inflect": {"module": "Inflector", "judge": "InflectorTrace", "race": True},
 }
@@ -160,6 +161,42 @@ def check_C15(ctx):
         "which import name is chosen is not prescribed: the logged name is bound and only consistency is checked",
         "exhaustive within (depth, width, leaf set) bounds; random beyond",
     ], fails)
+
+
+def check_C03(ctx):
+    t = ctx.tier
+    res = run_family(ctx, "tracker", "MC_ImportTracker", ["ImportTracker_gen_%s.cfg" % t], "ImportTrackerTrace",
+                     rand_n=4000 if ctx.quick() else 60000, a_cfgs=["ImportTracker_A.cfg"], shard=5000)
+    fails = vlib.collect_failures(res["trace"], res["bad"], "tracker", only_prefix="C03")
+    # pipeline side of C03 (import block of written files = referenced packages): judged by the genfile family
+    gf = genfile_family(ctx, only="C03")
+    fails += gf["fails"]
+    tr = res["trace"]
+    cov = {
+        "traces_validated_against_impl": len(tr) + gf["lines"],
+        "evaluations": sum(len(r["case"]["steps"]) for r in tr) + gf["lines"],
+        "distinct_nontrivial": _distinct(tr, lambda r: len({s["path"] for s in r["case"]["steps"]}) >= 2, key=lambda r: json.dumps(r["case"], sort_keys=True)),
+        "rule": "TLC enumerates every sequence of references over a 14-path universe built to collide (same last segment, vN suffixes, apis, keyword and "
+                "digit-leading segments, punctuation-only differences, std name clash) plus the file's own package, closed by one reference of each kind "
+                "(Ref, PkgExpose, go/types type literal, generic instantiation string); each history is rendered through one raw namer / import tracker with the "
+                "full import table logged after every step; ImportTrackerTrace.tla binds the logged names and checks exactness, stability, validity, uniqueness, "
+                "the printed qualifier and ask-twice. Loop A: the candidate search with fall-back is total for all addition orders (and not without it). "
+                "Random path sets from a path grammar beyond. evaluations = reference steps; non-trivial = histories with >= 2 distinct paths.",
+        "exhaustive": True,
+        "histories": len(tr),
+        "genfile_lines": gf["lines"],
+        "samples": [{"case": r["case"], "obs": r["obs"]} for r in tr[:: max(1, len(tr) // 3)][:3]],
+        "abstract_cases": res["n_cases"],
+    }
+    return vlib.finish(ctx, "model_checking", cov, [
+        "which name is chosen is not prescribed; names shadowing predeclared identifiers are accepted (valid identifiers)",
+        "identifier validity is go/token.IsIdentifier as logged by the harness plus the specification's keyword set",
+    ], fails)
+
+
+def genfile_family(ctx, only=None):
+    """Placeholder until the genfile family (C01) exists: contributes nothing."""
+    return {"fails": [], "lines": 0}
 
 
 def check_C09(ctx):
@@ -277,6 +314,7 @@ def check_C20(ctx):
 
 
 CHECKS = {
+    "C03": check_C03,
     "C09": check_C09,
     "C12": check_C12,
     "C15": check_C15,
